@@ -175,6 +175,37 @@ impl Trigger for Share {
     }
 }
 
+/// A roller that fails when told to (a full disk, a blocked archive path) and otherwise delegates.
+#[derive(Debug)]
+struct FlakyRoll {
+    inner: Box<dyn log4rs::append::rolling_file::policy::compound::roll::Roll>,
+    fail_next: Arc<std::sync::atomic::AtomicBool>,
+}
+
+impl log4rs::append::rolling_file::policy::compound::roll::Roll for FlakyRoll {
+    fn roll(&self, file: &std::path::Path) -> anyhow::Result<()> {
+        if self.fail_next.swap(false, std::sync::atomic::Ordering::SeqCst) {
+            anyhow::bail!("scripted failure of the roller");
+        }
+        self.inner.roll(file)
+    }
+}
+
+/// Stops and joins the observer thread on every way out of a history.
+struct Observer {
+    stop: Arc<std::sync::atomic::AtomicBool>,
+    handle: Option<std::thread::JoinHandle<u64>>,
+}
+
+impl Drop for Observer {
+    fn drop(&mut self) {
+        self.stop.store(true, std::sync::atomic::Ordering::SeqCst);
+        if let Some(h) = self.handle.take() {
+            let _ = h.join();
+        }
+    }
+}
+
 fn history(rep: &mut Report, rng: &mut Rng, zone: &str, table: &ZoneTable, idx: u64) {
     let unit = *rng.pick(&UNITS[..]);
     let n = *rng.pick(&[1i64, 1, 2, 3, 5, 7, 12]);
@@ -234,7 +265,26 @@ fn history(rep: &mut Report, rng: &mut Rng, zone: &str, table: &ZoneTable, idx: 
         hooks::set_clock(None);
         return;
     }
-    let roller = kind.build(&sc.path).unwrap();
+    let fail_next = Arc::new(std::sync::atomic::AtomicBool::new(false));
+    let roller = Box::new(FlakyRoll { inner: kind.build(&sc.path).unwrap(), fail_next: fail_next.clone() });
+    // in a quarter of the histories another thread keeps looking at the trigger (its Debug output, its schedule):
+    // being looked at must not make it miss a boundary
+    let _observer = if rng.chance(1, 4) {
+        let stop = Arc::new(std::sync::atomic::AtomicBool::new(false));
+        let (t2, s2) = (tt.clone(), stop.clone());
+        rep.count("histories_with_an_observer_thread", 1);
+        Some(Observer { stop, handle: Some(std::thread::spawn(move || {
+            let mut n = 0u64;
+            while !s2.load(std::sync::atomic::Ordering::SeqCst) {
+                let _ = format!("{:?}", t2);
+                let _ = t2.verif_next_roll_time();
+                n += 1;
+            }
+            n
+        })) })
+    } else {
+        None
+    };
     let app = match build_appender(&sc.path, true, Box::new(PatternEncoder::new("{m}{n}")), Box::new(Share(tt.clone())), roller) {
         Ok(a) => a,
         Err(e) => {
@@ -258,11 +308,36 @@ fn history(rep: &mut Report, rng: &mut Rng, zone: &str, table: &ZoneTable, idx: 
         };
         now = now + Duration::milliseconds(adv_ms);
         hooks::set_clock(Some(now));
+        // now and then the rotation that is due fails: the boundary is consumed (rescheduled), the record is refused,
+        // and the next boundary is honoured like any other
+        let roll_fails = now >= sched && rng.chance(1, 5);
+        if roll_fails {
+            fail_next.store(true, std::sync::atomic::Ordering::SeqCst);
+        }
         let a = append_frame(&app, 1, seq, 12, false);
         rep.count("history_appends", 1);
         if let Some(p) = take_panic() {
             rep.violation(&format!("C16:panic:append:{}", panic_class(&p)), json!({"history": desc, "now": now.to_rfc3339(), "panic": p}));
             break;
+        }
+        if roll_fails {
+            rep.count("history_rotations_that_failed", 1);
+            if a.ok || fail_next.load(std::sync::atomic::Ordering::SeqCst) {
+                rep.violation("C16:history:did-not-fire-on-first-record-at-or-after-the-schedule", json!({"history": desc, "now": now.to_rfc3339(),
+                    "scheduled": sched.to_rfc3339(), "what": "a rotation was due (and scripted to fail); the roller was not called or the append did not report the failure"}));
+                fail_next.store(false, std::sync::atomic::Ordering::SeqCst);
+                break;
+            }
+            if let Err((sig, what)) = compare_dir(&dir_files(&sc.path), &kind, &win, &active) {
+                rep.violation("C16:history:directory-after-a-failed-rotation", json!({"history": desc, "now": now.to_rfc3339(), "directory_check": sig, "what": what}));
+                break;
+            }
+            let new_sched = tt.verif_next_roll_time();
+            if !check_schedule(rep, now, new_sched, "reschedule after a rotation that failed") {
+                break;
+            }
+            sched = new_sched;
+            continue;
         }
         if !a.ok {
             rep.violation("C16:history:append-failed", json!({"history": desc, "now": now.to_rfc3339()}));
